@@ -169,6 +169,28 @@ func renderResponse(r commands.Response) string {
 
 type dnsrespComp struct{}
 
+// questionNameFor: the query the answer replies to — a name under the tunnel domain as the server receives it from
+// the wire, i.e. always fully qualified exactly once, however the domain is spelled in the configuration (with its
+// final dot or without).  For a domain without a final dot this is "cabc00.<domain>." as before.
+func questionNameFor(domain string) string {
+	if endsInUnescapedDot(domain) {
+		return "cabc00." + domain
+	}
+	return "cabc00." + domain + "."
+}
+
+// endsInUnescapedDot: a final '.' preceded by an even number of backslashes
+func endsInUnescapedDot(s string) bool {
+	if !strings.HasSuffix(s, ".") {
+		return false
+	}
+	n := 0
+	for i := len(s) - 2; i >= 0 && s[i] == '\\'; i-- {
+		n++
+	}
+	return n%2 == 0
+}
+
 func (c dnsrespComp) Exec(op string) (string, string, string, bool) {
 	return c.run(op, nil)
 }
@@ -243,7 +265,7 @@ func (dnsrespComp) run(op string, rec *[]string) (result, monitor, class string,
 
 	ser := commands.Serializer{Downstream: util.DownstreamConfig{Encoder: codec}, Domain: domain}
 	q := new(dns.Msg)
-	q.SetQuestion("cabc00."+domain+".", uint16(qt))
+	q.SetQuestion(questionNameFor(domain), uint16(qt))
 	msg, err := ser.EncodeDnsResponseWithParams(resp, q, qt, codec)
 	if err != nil {
 		return "enc-error", "", class + "/enc-error", false
@@ -396,6 +418,38 @@ func (c dnsrespComp) Gen(r *Rand, tier string, emit func(string)) {
 	c.boundarySweep(r, thorough, emit)
 	// (6) the same path for several responses at the same moment
 	c.genPar(r, thorough, emit)
+	// (7) the tunnel domain as configured (final dot, case, one label / many, long, characters that need escaping,
+	// malformed): every spelling x record type x codec x a few sizes.  Wrapping writes the domain, unwrapping
+	// measures it: both sides must agree on every spelling, or fail with an error.
+	for _, sp := range domainSpellings() {
+		for _, rr := range respRRs {
+			ks := []string{"T", "S", "W", "V"}
+			if rr == "txt" || rr == "null" || thorough {
+				ks = append(ks, "R")
+			}
+			if thorough {
+				ks = append(ks, "U", "X")
+			}
+			for _, k := range ks {
+				// A and AAAA carry whole records only: pick lengths whose stream is a multiple of 3 / 14 now and then
+				lens := []int{1 + r.Intn(6), 8 + r.Intn(20), 30 + r.Intn(40)}
+				if thorough {
+					lens = append(lens, 0, 7, 14, 57, 100, 150)
+				}
+				c.emitResp(emit, k, sp.domain, rr, fmt.Sprintf("c _ %d 0 0 -", r.Intn(65536)))
+				c.emitResp(emit, k, sp.domain, rr, fmt.Sprintf("v %d %d _", r.Next()&0xFFFFFFFF, r.Intn(1296)))
+				for _, n := range lens {
+					data := stressBytes(r, n, r.Intn(2))
+					if k == "R" {
+						for i := range data {
+							data[i] = base36[int(data[i])%36]
+						}
+					}
+					c.emitResp(emit, k, sp.domain, rr, fmt.Sprintf("c _ %d 1 %d %s", r.Intn(65536), r.Intn(65536), hexs(data)))
+				}
+			}
+		}
+	}
 	// (4) random
 	n := 600
 	if thorough {
